@@ -19,7 +19,7 @@ from vf.oracles import modelwalk, ref_decl
 PROP = "C16"
 LEVEL = "exploration"
 TECHNIQUE = "runtime monitor comparing getattr()/shortcut properties with an explicit __dict__ walk (object identity), plus clean-miss and copy/deepcopy/pickle equality monitors, over presence patterns of all classes; sparse-then-full access order to expose lookup caches"
-RULE = ("instances of every exported class over presence patterns of their optional sub-aggregates (all 2^k patterns for k<=6, sampled above) and "
+RULE = ("instances of every exported class over presence patterns of their optional sub-aggregates (all 2^k patterns for k<=6 (quick) / k<=8 (thorough), sampled above) and "
         "list members (min / random / max profiles, sparse instances visited BEFORE full ones in one process), x every attribute name declared "
         "anywhere below the class x undefined names (random identifiers, list-method look-alikes, the dunders the stdlib probes); the 12 message-set "
         "classes and OFX with 0-4 statements / closing statements of each kind interleaved. A case = (class, seed, presence pattern)")
@@ -31,7 +31,7 @@ LEVEL_TEXT = ("Exploration: the proxy is five lines, but which object it returns
 LEVEL_NOTE = "Trusts ref_decl and the explicit walk; properties other than the documented shortcuts are not judged."
 DESIGN_REF = "DESIGN.md §3 C16"
 MIN_COUNTERS = {"quick": {"flat_reads_judged": 10000, "misses_judged": 20000, "copies_judged": 6000, "shortcuts_judged": 1500, "classes": 380, "statements_shortcut_members": 300},
-                "thorough": {"flat_reads_judged": 300000, "misses_judged": 200000, "copies_judged": 60000, "shortcuts_judged": 30000, "classes": 380, "statements_shortcut_members": 3000}}
+                "thorough": {"flat_reads_judged": 150000, "misses_judged": 400000, "copies_judged": 150000, "shortcuts_judged": 20000, "classes": 380, "statements_shortcut_members": 10000}}
 
 UNDEFINED = ["nosuchattr", "zz_undefined", "statementz", "__deepcopy__x", "__copy__", "__deepcopy__", "__getnewargs__", "__getnewargs_ex__", "__setstate__",
              "__reduce_ex__zz", "_private", "__wrapped__", "__fspath__", "__index__", "__len__zz", "__html__", "_ipython_canary_method_should_not_exist_"]
@@ -273,11 +273,11 @@ def run_class(ctx, name, cls, seed, thorough):
     d = ref_decl.decl(cls)
     optsubs = [k for k, t in d.items() if ref_decl.kind_of(t) == "sub" and not getattr(t, "required", False)]
     # presence patterns of optional sub-aggregates, SPARSE FIRST
-    if len(optsubs) <= 6:
+    if len(optsubs) <= (8 if thorough else 6):
         patterns = sorted(itertools.product([0, 1], repeat=len(optsubs)), key=sum)
     else:
         r = random.Random(f"C16p/{seed}/{name}")
-        patterns = [tuple(0 for _ in optsubs)] + [tuple(int(r.random() < 0.5) for _ in optsubs) for _ in range(30 if thorough else 10)] + [tuple(1 for _ in optsubs)]
+        patterns = [tuple(0 for _ in optsubs)] + [tuple(int(r.random() < 0.5) for _ in optsubs) for _ in range(120 if thorough else 10)] + [tuple(1 for _ in optsubs)]
         patterns = sorted(set(patterns), key=sum)
     if not thorough and len(patterns) > 16:
         r = random.Random(f"C16q/{seed}/{name}")
@@ -293,7 +293,7 @@ def run_class(ctx, name, cls, seed, thorough):
             ctx.count("pattern_not_constructible")  # e.g. mutually exclusive sub-aggregates
             continue
         probe(ctx, inst, rng, {"cls": name, "seedstr": seedstr, "pattern": "".join(map(str, pat)), "force": force, "exclude": excl})
-    for pi, profile in enumerate(["min", "random", "max"] + (["random"] * 6 if thorough else [])):
+    for pi, profile in enumerate(["min", "random", "max"] + (["random"] * 60 if thorough else [])):
         seedstr = f"C16/{seed}/{name}/prof{pi}"
         rng = random.Random(seedstr)
         try:
